@@ -353,17 +353,24 @@ def run_cli(args, cwd, env=None, timeout=120, feed=None):
     return p.returncode, out.get("o", b""), out.get("e", b"")
 
 
-def run_main_driver(code, argv, quit_after_guesses=None, quit_after_pops=None, cap=200000, timeout=300):
+def run_main_driver(code, argv, quit_after_guesses=None, quit_after_pops=None, cap=200000, timeout=300, hashseed=None):
     """pcfg_guesser.main() of the scratch code copy [code] in a child process, the quit request delivered at a chosen
-    point (harness/main_driver.py).  Returns the driver's result dict."""
+    point (harness/main_driver.py).  Returns the driver's result dict.  Guesses that were handed to print_guess but never reached
+    stdout count as an error of the run (every user of this helper reports an error as a violation).  [hashseed]: PYTHONHASHSEED of
+    the child (a resumed session is a NEW process with another string-hash salt)."""
     import json as _json
     spec = {"argv": list(argv), "quit_after_guesses": quit_after_guesses, "quit_after_pops": quit_after_pops, "cap": cap}
     env = subenv()
     env["PYTHONPATH"] = code
+    if hashseed is not None:
+        env["PYTHONHASHSEED"] = str(hashseed)
     p = subprocess.run([PY, os.path.join(ROOT, "harness", "main_driver.py"), code, _json.dumps(spec)], cwd=code, env=env,
                        stdin=subprocess.DEVNULL, stdout=subprocess.PIPE, stderr=subprocess.PIPE, timeout=timeout)
     for line in p.stdout.decode("utf-8", "replace").split("\n"):
         if line.startswith("@@RESULT@@"):
-            return _json.loads(line[len("@@RESULT@@"):])
+            res = _json.loads(line[len("@@RESULT@@"):])
+            if res.get("lost_stdout_count") and not res.get("error"):
+                res["error"] = "%d guess(es) were generated but never written to stdout (first: %r)" % (res["lost_stdout_count"], res["lost_stdout"][:3])
+            return res
     return {"out": [], "pops": [], "error": "driver produced no result (rc %s): %s" % (p.returncode, p.stderr.decode("utf-8", "replace")[-500:]),
             "stray_stdout": ""}
